@@ -40,7 +40,14 @@ RELS = {
 # R1/R1p/R2/R3 vary only what the simulator owns (seed, call history, output sink, clock): the arithmetic of
 # the run is the same, so the results must be bit-identical (0.0). A print-only branch that touches the
 # running model shows up as a last-bit difference long before it shows up at any rounding tolerance.
-TOL = {"R1": 0.0, "R1p": 0.0, "R1s": 0.0, "R1g": 0.0, "R1f": 0.0, "R2": 0.0, "R2d": 0.0, "R3": 0.0, "R4": 1e-12, "R5": 1e-8, "R6": 1e-8, "R7": 1e-8}
+# "Same model up to rounding" (the property's words). The relations that vary only what the simulator owns (R1*, R2*, R3)
+# were first compared for bit identity; a thorough-tier run (root seed 702, run 12582, Tucker-ALS on a 2x4 matrix) then
+# showed two *identical* calls in one process differing by 4.9e-16 -- and not on every repetition: numpy/BLAS kernels
+# take different paths depending on the alignment of freshly allocated buffers. Bit identity is therefore counted
+# (probe:bitwise_equal) but not demanded: differences up to ROUNDING pass, anything larger must be explained by the
+# conditioning of the problem (two-sided guard below) or is a violation.
+ROUNDING = 1e-12
+TOL = {"R1": ROUNDING, "R1p": ROUNDING, "R1s": ROUNDING, "R1g": ROUNDING, "R1f": ROUNDING, "R2": ROUNDING, "R2d": ROUNDING, "R3": ROUNDING, "R4": 1e-12, "R5": 1e-8, "R6": 1e-8, "R7": 1e-8}
 FIT_TOL = 1e-6
 PQNR_KNOWN_MSG = "ERROR: L-BFGS first iterate is bad"
 
@@ -540,7 +547,7 @@ class EngineC18:
         if not (d <= tol):
             if op in ("R5", "R6", "R7") and self._min_gap(base, other) < 1e-6:
                 raise Skip("eigen_gap_below_1e-6")
-            if op in ("R4", "R5", "R6", "R7"):
+            if True:
                 # conditioning guard: how far does the base run itself move when its data are perturbed in the
                 # 13th digit? A variant whose arithmetic differs in the last bits cannot be expected to agree
                 # better than that (observed: full-rank 2x3 matrix, rank-2 CP-ALS, 1.9e-8 after one sweep).
@@ -605,19 +612,36 @@ class EngineC18:
             "import sys, json; sys.path.insert(0, %r); sys.path.insert(0, %r)\n"
             "from sim import driver; driver.import_sut()\n"
             "from sim.engine_c18 import EngineC18\n"
-            "from sim.kernel import arr_digest\n"
+            "from sim.kernel import arr_digest, enc\n"
             "init = json.loads(sys.stdin.read())\n"
             "o = EngineC18('C18', [])._call(init, {})\n"
             "import numpy as np\n"
-            "print('DIGEST', arr_digest(o['full']), o['iters'])\n"
+            "print('DIGEST', arr_digest(o['full']), o['iters'], json.dumps(enc(o['full'])))\n"
         ) % (os.path.dirname(os.path.dirname(os.path.abspath(__file__))), os.environ.get("VERIF_REPO", "/repo"))
         p = subprocess.run([sys.executable, "-c", code], input=json.dumps(init), capture_output=True, text=True, env=env, timeout=120)
         res.bump("probe:fresh_interpreter_run")
         line = [ln for ln in p.stdout.splitlines() if ln.startswith("DIGEST ")]
         if not line:
             return V("fresh_interpreter_same_result", f"fresh interpreter failed: {p.stderr[-400:]}")
-        dg, iters = line[0].split()[1:3]
+        dg, iters, payload = line[0].split(None, 3)[1:4]
         res.bump("pairs_compared")
-        if dg != arr_digest(base["full"]) or int(iters) != base["iters"]:
-            return V("fresh_interpreter_same_result", f"digest {dg} / iters {iters} in a fresh interpreter vs {arr_digest(base['full'])} / {base['iters']}")
-        return None
+        if dg == arr_digest(base["full"]) and int(iters) == base["iters"]:
+            res.bump("probe:bitwise_equal")
+            return None
+        other_full = np.asarray(dec(json.loads(payload)), dtype=float)
+        d = self._rel(base["full"], other_full) if other_full.shape == base["full"].shape else float("inf")
+        if d <= ROUNDING and int(iters) == base["iters"]:
+            res.bump("probe:rounding_level_difference")
+            return None
+        # larger than rounding: only the conditioning of the problem can excuse it (same guard as in _relation)
+        x = np.asarray(dec(init["x"]), dtype=float)
+        noise = np.random.RandomState(init["np_seed"] & 0xFFFF).uniform(-1.0, 1.0, x.shape)
+        init_p = dict(init)
+        init_p["x"] = enc(x * (1.0 + 1e-13 * noise))
+        try:
+            d_self = self._rel(base["full"], self._call(init_p, {})["full"])
+        except Exception:  # noqa: BLE001
+            d_self = float("inf")
+        if d <= 100.0 * d_self:
+            raise Skip("ill_conditioned_problem")
+        return V("fresh_interpreter_same_result", f"relative difference {d:.3e} / iters {iters} in a fresh interpreter vs iters {base['iters']}")
